@@ -49,6 +49,10 @@ pub use self::sketch::CpcSketch;
 pub use self::union::CpcUnion;
 pub use self::wrapper::CpcWrapper;
 
+#[cfg(feature = "verif-hooks")]
+#[doc(hidden)]
+pub use self::compression::verif_tables as verif_cpc_tables;
+
 /// Default log2 of K.
 const DEFAULT_LG_K: u8 = 11;
 /// Min log2 of K.
